@@ -142,7 +142,10 @@ class LMNN(MahalanobisMixin, TransformerMixin):
                     ' version 0.6.3 and will be removed in 0.7.0'
                     '', FutureWarning)
       n_neighbors = k
-    self.k = 'deprecated'  # To avoid no_attribute error
+      k = 'deprecated'
+    # (the object that was passed is kept when it is the sentinel: `clone`
+    # requires the constructor to store its arguments unmodified)
+    self.k = k  # To avoid no_attribute error
     self.n_neighbors = n_neighbors
     self.min_iter = min_iter
     self.max_iter = max_iter
